@@ -44,11 +44,15 @@ def relayCheck (wire : Bytes) (code : Int) (reason body : Bytes) (pairs : List (
     (Http.names m.headers).all (fun n => pairs.any fun h => lower h.1 == n) &&
     pairs.all (fun h => C12.vals h.1 m.headers == C12.vals h.1 pairs)
 
-/-- a `name: value` pair the strict reader can be shown: the name is not empty, no CR -/
-def pairOk (e : Bytes × Bytes) : Bool := !e.1.isEmpty && !containsByte CR e.1 && !containsByte CR e.2
+/-- a `name: value` pair without CR in name or value: the side condition of the CR-free lemmas
+    `hdrWf_mapOf`/`relayCheck_relayed` below.  (That the name is not empty and has no ':' need not be
+    asked: `specHead`, like the library's parser, refuses lines with a blank name,
+    `nameOk_of_specHead'`.)  The run theorem `C13.holds_run` no longer needs it: see the general
+    forms `parse_relayed_w`, `resp_parts_ok`, `relayCheck_relayed_w` at the end of this file. -/
+def pairOk (e : Bytes × Bytes) : Bool := !containsByte CR e.1 && !containsByte CR e.2
 
-theorem colon_free_of_headerPairs' (lines : List Bytes) : ∀ {pairs : List (Bytes × Bytes)},
-    headerPairs' lines = some pairs → ∀ e ∈ pairs, COLON ∉ e.1 := by
+theorem nameOk_of_headerPairs' (lines : List Bytes) : ∀ {pairs : List (Bytes × Bytes)},
+    headerPairs' lines = some pairs → ∀ e ∈ pairs, ProxyL.NameOk e := by
   induction lines with
   | nil => intro pairs h e he; cases h; cases he
   | cons l ls ih =>
@@ -62,13 +66,23 @@ theorem colon_free_of_headerPairs' (lines : List Bytes) : ∀ {pairs : List (Byt
       | some p =>
         obtain ⟨n, v⟩ := p
         rw [h1, h2] at h
-        cases h
-        rcases List.mem_cons.mp he with rfl | he
-        · exact fun hc => breakOn_singleton_not_mem h2 (ProxyL.mem_of_mem_trim hc)
-        · exact ih h1 e he
+        simp only at h
+        cases hemp : (trim n).isEmpty with
+        | true => rw [hemp] at h; simp at h
+        | false =>
+          rw [hemp] at h
+          simp only [Bool.false_eq_true, if_false, Option.some.injEq] at h
+          subst h
+          rcases List.mem_cons.mp he with rfl | he
+          · refine ⟨fun c => ?_, fun hc => breakOn_singleton_not_mem h2 (ProxyL.mem_of_mem_trim hc)⟩
+            simp only at c
+            rw [c] at hemp
+            cases hemp
+          · exact ih h1 e he
 
-theorem colon_free_of_specHead' {head : Bytes} {code : Int} {reason : Bytes} {pairs : List (Bytes × Bytes)}
-    (h : specHead' head = some (code, reason, pairs)) : ∀ e ∈ pairs, COLON ∉ e.1 := by
+/-- every pair `specHead` reads has a non-empty name without ':' -/
+theorem nameOk_of_specHead' {head : Bytes} {code : Int} {reason : Bytes} {pairs : List (Bytes × Bytes)}
+    (h : specHead' head = some (code, reason, pairs)) : ∀ e ∈ pairs, ProxyL.NameOk e := by
   unfold specHead' at h
   split at h
   · cases h
@@ -82,7 +96,7 @@ theorem colon_free_of_specHead' {head : Bytes} {code : Int} {reason : Bytes} {pa
           rw [hp] at h
           simp only [Option.map_some, Option.some.injEq, Prod.mk.injEq] at h
           obtain ⟨_, _, rfl⟩ := h
-          exact colon_free_of_headerPairs' lines hp
+          exact nameOk_of_headerPairs' lines hp
       · cases h
     · cases h
 
@@ -106,14 +120,13 @@ theorem code_range_of_specHead' {head : Bytes} {code : Int} {reason : Bytes} {pa
       · cases h
     · cases h
 
-theorem hdrWf_mapOf {pairs : List (Bytes × Bytes)} (hc : ∀ e ∈ pairs, COLON ∉ e.1)
+theorem hdrWf_mapOf {pairs : List (Bytes × Bytes)} (hc : ∀ e ∈ pairs, ProxyL.NameOk e)
     (hok : pairs.all pairOk = true) : C03L.HdrWf (mapOf pairs) := by
   intro e he
   have hm := mem_mapOf.mp he
   have h1 := List.all_eq_true.mp hok e hm
-  simp only [pairOk, Bool.and_eq_true, Bool.not_eq_true', Http.containsByte_eq_false,
-    List.isEmpty_eq_false_iff] at h1
-  exact ⟨h1.1.1, hc e hm, h1.1.2, h1.2⟩
+  simp only [pairOk, Bool.and_eq_true, Bool.not_eq_true', Http.containsByte_eq_false] at h1
+  exact ⟨(hc e hm).1, (hc e hm).2, h1.1, h1.2⟩
 
 /-- the relayed wire passes the check of `C13.holds` -/
 theorem relayCheck_relayed {code : Int} {reason : Bytes} {pairs : List (Bytes × Bytes)} (body : Bytes)
@@ -174,5 +187,61 @@ theorem is502Only_err502 (env : Env) : is502Only' (err502 env []) = true := by
   simp only [msg502, statusLine_502, Option.map_some]
   rw [C04L.valuesOf_cl _ (HB.natDigits_all_isDigit _)]
   simp
+
+/-! ### the general form: nothing is asked of the upstream head -/
+
+theorem startOut_noCRLF {code : Int} {reason : Bytes} (hc : 0 ≤ code) (hr : ¬ CRLF <:+: reason) :
+    ¬ CRLF <:+: Http.HTTP10 ++ intText code ++ [SP] ++ reason := by
+  have h1 : ¬ CRLF <:+: Http.HTTP10 ++ intText code := by
+    apply ProxyL.noCRLF_of_CR
+    simp only [List.mem_append, not_or]
+    exact ⟨by decide, intText_CR hc⟩
+  exact not_infix_append_sep h1 hr (by decide)
+
+/-- **the relayed response re-parses**, general form: the reason and the header entries need only
+    be free of CR LF -/
+theorem parse_relayed_w {code : Int} {reason : Bytes} {hs : HeaderMap} (body : Bytes)
+    (hc : 0 ≤ code) (hr : ¬ CRLF <:+: reason) (hw : ProxyL.HdrW hs) :
+    Http.parse (headOut code reason hs ++ body) =
+      some { start := Http.HTTP10 ++ intText code ++ [SP] ++ reason, headers := hs, body := body } ∧
+    Http.statusLine (Http.HTTP10 ++ intText code ++ [SP] ++ reason) =
+      some { code := code.natAbs, reason := reason } := by
+  refine ⟨?_, Http.statusLine_intText hc reason⟩
+  rw [headOut_eq]
+  exact Http.parse_render_w _ _ _ (by simp [Http.HTTP10, lit]) (startOut_noCRLF hc hr) hw
+
+/-- what `Parser::parseResponseHeaders` returns is fit for re-reading, whatever the upstream
+    server sent: the reason has no CR LF (it is part of a line), the header map is `HdrW` -/
+theorem resp_parts_ok {head reason : Bytes} {code : Int} {m : HeaderMap}
+    (h : Parser.parseResponseHeaders head = some (code, reason, m)) :
+    ¬ CRLF <:+: reason ∧ ProxyL.HdrW m ∧ 100 ≤ code ∧ code ≤ 599 := by
+  unfold Parser.parseResponseHeaders at h
+  split at h
+  · cases h
+  · rename_i p0 p1 p2 m' hp
+    simp only at h
+    split at h
+    · rename_i hc
+      simp only [Option.some.injEq, Prod.mk.injEq] at h
+      obtain ⟨rfl, rfl, rfl⟩ := h
+      obtain ⟨hs, _, _, hf, hl, hpl, _⟩ := (Parser.parseHeaders_eq_some_iff _ _ _ _ _ _).1 hp
+      refine ⟨ProxyL.noCRLF_of_infix hf ⟨p0 ++ [SP] ++ p1 ++ [SP], [], by simp⟩,
+        ProxyL.hdrW_of_parseHeaderList hpl (fun e he => by cases he) hl, ?_⟩
+      simpa using hc
+    · cases h
+
+/-- the relayed wire passes the check of `C13.holds` (general form) -/
+theorem relayCheck_relayed_w {code : Int} {reason : Bytes} {pairs : List (Bytes × Bytes)} (body : Bytes)
+    (hc : 0 ≤ code) (hr : ¬ CRLF <:+: reason) (hw : ProxyL.HdrW (mapOf pairs)) :
+    relayCheck (headOut code reason (mapOf pairs) ++ body) code reason body pairs = true := by
+  obtain ⟨h1, h2⟩ := parse_relayed_w body hc hr hw
+  unfold relayCheck
+  rw [h1]
+  simp only [h2]
+  have e : ((code.natAbs : Nat) : Int) = code := Int.natAbs_of_nonneg hc
+  simp only [e, beq_self_eq_true, Bool.and_self, Bool.true_and, names_mapOf,
+    List.all_eq_true, beq_iff_eq]
+  intro h _
+  exact vals_mapOf h.1 pairs
 
 end Qhttp.C13L
